@@ -1161,35 +1161,15 @@ fn run_p(rng: &mut Rng, cycles: usize, out: &mut Out) -> Result<bool, String> {
 }
 
 // ------------------------------------------------------------------------------------------
-// the recorded witness of the known finding (TP restarts on a rising edge inside a pulse)
+// the recorded witness of the repaired finding C04-tp-retrigger (TP restarted on a rising edge inside a
+// pulse before /repo commit b46c61d), kept in the corpus so that a regression is reported
 // ------------------------------------------------------------------------------------------
 
 /// (IN, dt) with PT = 10: the pulse accepted at call 1 has accumulated 12 >= PT at call 4, so IEC
-/// (non-retriggerable) demands Q = FALSE there; the code restarts ET at call 3 and answers Q = TRUE.
+/// (non-retriggerable) demands ET = 8 at call 3 and Q = FALSE at call 4; the old code restarted ET at
+/// call 3 (ET = 4) and still answered Q = TRUE at call 4.
 pub const TP_WITNESS: [(bool, i64); 6] = [(true, 0), (false, 4), (true, 4), (true, 4), (true, 4), (true, 4)];
 pub const TP_WITNESS_PT: i64 = 10;
-
-/// What IEC 61131-3 (non-retriggerable TP) answers on the witness.
-pub const TP_WITNESS_IEC: [(bool, i64); 6] = [(true, 0), (true, 4), (true, 8), (false, 0), (false, 0), (false, 0)];
-
-/// Does the implementation still show the recorded defect?  If it answers the witness like IEC, the
-/// driver is told to use the patched TP model (`tpStepFixed`, for which the full theorem is proved)
-/// instead of the model of the code as it was (`tpStep`, partial theorems).
-fn tp_mode() -> &'static str {
-    let mut tp = Tp::new();
-    let got: Vec<(bool, i64)> = TP_WITNESS
-        .iter()
-        .map(|(inp, dt)| {
-            let o = tp.step(*inp, Duration::from_nanos(TP_WITNESS_PT), Duration::from_nanos(*dt));
-            (o.q, o.et.as_nanos())
-        })
-        .collect();
-    if got == TP_WITNESS_IEC {
-        "fixed"
-    } else {
-        "asis"
-    }
-}
 
 fn run_witness(out: &mut Out) -> Result<(), String> {
     // route S
@@ -1237,9 +1217,6 @@ pub fn run(args: &Args) -> i32 {
     std::panic::set_hook(Box::new(|_| {}));
     let mut out = Out::new();
     let steps = args.extra_usize("steps", 40);
-    let mode = guard(tp_mode).unwrap_or("asis");
-    out.line(format!("tpmode {mode}"));
-    out.count(&format!("tp_model_{mode}"));
     for n in args.case_numbers() {
         let mut rng = Rng::for_case(args.seed, n);
         out.line(format!("case {n}"));
